@@ -6,34 +6,50 @@
     The order Python's sorted(list(set(..))) gives to keys with equal (created, is_public) is not modelled: the model is
     parametrised by the sort, and the driver asks this process ("?tie") whenever two distinct keys tie.
 (b) property oracle, run directly on the implementation after every step, with an independent book-keeping of what is loaded:
-    fingerprints() exact; every identifier of a loaded key (also with blanks) is `in` the keyring and selects a loaded key
-    carrying it; identifiers of unloaded keys only select nothing; len exact; load() reports what it was given;
-    selection by signature / encrypted message yields the issuing / decrypting key (sample).
+    fingerprints() exact; every identifier of a loaded key (a fingerprint / key id / short id also written in groups) is `in`
+    the keyring and selects a loaded key carrying it; identifiers of unloaded keys only -- among them names that differ from a
+    loaded name by blanks only -- select nothing; len exact; load() reports what it was given (also for a bytearray, which it
+    leaves untouched); selection by signature / encrypted message yields the issuing / decrypting key and raises KeyError (and
+    nothing else) when no issuer is loaded (sample).
+(c) PGPKeyring._unspaced against the model's `unspaced` and against an independent reading of the rule, on generated identifiers.
 The source text of the modelled methods is pinned: an edit is reported even when no failing input is found."""
 import collections, hashlib, inspect, os, shutil, tempfile, warnings
 from datetime import datetime, timezone
 
-from .common import Driver, load_repo
+from .common import Driver, DriverError, Batch, load_repo, outcome
 
 PINNED = {
     'PGPKeyring._add_alias': '04f6210db6487cd7',
     'PGPKeyring._sort_alias': '2eef8b3c2d963545',
     'PGPKeyring._add_key': '506c3a2a400a691c',
     'PGPKeyring.unload': 'c74b6d935511a928',
-    'PGPKeyring.__contains__': '89ea0dd964cb8357',
-    'PGPKeyring._get_key': 'b949446962536c94',
-    'PGPKeyring.key': '5e9f60d9f09a0b3c',
+    'PGPKeyring.__contains__': '136410717440fb6d',
+    'PGPKeyring._get_key': 'eb28d9533a70aa50',
+    'PGPKeyring._unspaced': '313e2ce3ba9310b6',
+    'PGPKeyring.key': '80218ad076d74465',
     'PGPKeyring.fingerprints': '15c4aa3cbfe67197',
-    'PGPKeyring.load': 'ff959a738336dec6',
+    'PGPKeyring.load': '2b3a31b91b78c181',
 }
 
-FORMS = ('object', 'binary', 'armored', 'file', 'binfile')
+FORMS = ('object', 'binary', 'armored', 'file', 'binfile', 'bytearray', 'armorbytearray')
 MODES = ('single', 'list', 'tuple', 'args')
 
 
 def hexs(s):
     b = str(s).encode('utf-8')
     return b.hex() if b else '-'
+
+
+HEXDIGITS = '0123456789abcdefABCDEF'
+
+
+def unspaced_ref(a):
+    """the rule of the property text, read independently of PGPKeyring._unspaced: blanks are ignored only in what is, without
+    them, a fingerprint (40 hexadecimal digits), a key id (16) or a short id (8)"""
+    s = ''.join(ch for ch in a if ch != ' ')
+    if len(s) in (8, 16, 40) and all(ch in HEXDIGITS for ch in s):
+        return s
+    return a
 
 
 def src_digest(obj):
@@ -43,7 +59,8 @@ def src_digest(obj):
 def check_pins(ctx, pgpy):
     for name, want in PINNED.items():
         cls, meth = name.split('.')
-        got = src_digest(getattr(getattr(pgpy, cls), meth))
+        got = outcome(lambda: src_digest(getattr(getattr(pgpy, cls), meth)))
+        got = got[1] if got[0] == 'ok' else 'missing (%s)' % got[1]
         if got != want:
             ctx.broken.append('pinned source of %s changed (sha256/16 %s, model written against %s): re-inspect Model/Keyring.v' % (name, got, want))
 
@@ -73,6 +90,10 @@ def build_universe(pgpy):
     U['E'] = mk([('y', '', ''), ('x', 'x y', 'e@example.com')], 5, 2)
     U['Bp'] = U['B'].pubkey
     U['F'] = mk([('x', '', 'f  g')], 1, 0)          # same creation time as A: a genuine tie in _sort_alias
+    # names differing by blanks only; names / comments that are hexadecimal digits, with and without blanks, of a length that
+    # makes them look like a short id / key id (8, 16) and of one that does not (12)
+    U['G'] = mk([('John Smith', 'DEAD BEEF', ''), ('DEADBEEF0123', '', '')], 6, 0)
+    U['H'] = mk([('JohnSmith', 'DEADBEEF', ''), ('dead beef 0123 4567', 'DEAD BEEF 0123', 'deadbeef01234567')], 7, 0)
     return U
 
 
@@ -125,19 +146,20 @@ class Sim:
                 self.pk(c)
         self.d.oracles['tie'] = self.tie
         # probes: every identifier of the universe, blank variants, a few that nobody carries
-        pr = []
-        for k in U.values():
+        pr, extra = [], []
+        for lb, k in U.items():
             for c in components(k):
-                for a in aliases_of(c):
+                for n, a in enumerate(aliases_of(c)):
                     pr.append(a)
+                    if n < 3 and lb not in ('G', 'H'):      # fingerprint, key id, short id written in groups
+                        extra += spaced(a)[:2 if len(a) != 40 else 4]
         pr = list(collections.OrderedDict.fromkeys(pr))
-        extra = []
-        for a in pr:
-            if len(a) in (40, 16, 8) and all(ch in '0123456789ABCDEF' for ch in a):
-                extra += spaced(a)[:2 if len(a) != 40 else 4]
         extra += ['x  y', ' x', 'x ', 'X', 'nobody', '', ' ', 'sharedcomment', 'shared  comment', 'f g', 'fg',
-                  str(U['A'].fingerprint).lower(), str(U['A'].fingerprint)[:-1], '0' * 40]
+                  str(U['A'].fingerprint).lower(), str(U['A'].fingerprint)[:-1], '0' * 40,
+                  'John  Smith', 'Joh nSmith', 'DEA DBEEF', 'D E A D B E E F', 'dead beef', 'DEADBEEF 0123', 'deadbeef0123 4567',
+                  'dead beef 01234567', 'DEADBEEF\n', 'DEAD\u00a0BEEF', 'DEADBEE\u0663']
         self.probes = list(collections.OrderedDict.fromkeys(pr + extra))
+        self.unsp = {a: unspaced_ref(a) for a in self.probes}
         self.d.call('probes', *[hexs(a) for a in self.probes])
         self.reset()
 
@@ -202,19 +224,44 @@ class Sim:
     def apply(self, op, case, r=-1):
         """run one op on the implementation and on the model; returns False when something failed.
         r = -1: the model answers with every observation; r in 0..2: a third of the probes, no filtered fingerprints()"""
+        try:
+            return self._apply(op, case, r)
+        except DriverError:
+            raise
+        except Exception as ex:      # attribute reads on key objects etc.: a recorded failing case, never a harness crash
+            self.ctx.fail('history', 'a step could not be carried out on the implementation: %s' % type(ex).__name__, case)
+            return False
+
+    def _apply(self, op, case, r):
         kind = op[0]
         self.r = r
         if kind == 'L':
             _, items, mode = op
-            args, before = [], set(self.kr._keys)
+            args, before, buffers = [], set(self.kr._keys), []
             for lb, form in items:
-                args.append(self.U[lb] if form == 'object' else self.blobs[lb][form])
-            with warnings.catch_warnings():
-                warnings.simplefilter('ignore')
-                if mode == 'single': ret = self.kr.load(args[0])
-                elif mode == 'list': ret = self.kr.load(list(args))
-                elif mode == 'tuple': ret = self.kr.load(tuple(args))
-                else: ret = self.kr.load(*args)
+                if form == 'object':
+                    args.append(self.U[lb])
+                elif form in ('bytearray', 'armorbytearray'):      # a fresh buffer each time: load() must not consume it
+                    raw = self.blobs[lb]['binary'] if form == 'bytearray' else self.blobs[lb]['armored'].encode('latin-1')
+                    args.append(bytearray(raw)); buffers.append((args[-1], raw))
+                else:
+                    args.append(self.blobs[lb][form])
+
+            def do_load():
+                with warnings.catch_warnings():
+                    warnings.simplefilter('ignore')
+                    if mode == 'single': return self.kr.load(args[0])
+                    if mode == 'list': return self.kr.load(list(args))
+                    if mode == 'tuple': return self.kr.load(tuple(args))
+                    return self.kr.load(*args)
+            res = outcome(do_load)
+            if res[0] == 'raise':
+                self.ctx.fail('history', 'load() of a supported form raised %s' % res[1], case)
+                return False
+            ret = res[1]
+            if any(bytes(b) != raw for b, raw in buffers):
+                self.ctx.fail('history', 'load() modified the bytearray it was given', case)
+                return False
             # which objects did it process, in order
             objs, used = [], set()
             for lb, form in items:
@@ -243,13 +290,17 @@ class Sim:
             if lst:
                 o = lst[n % len(lst)]
                 if how != 'obj':
-                    a = aliases_of(o)[{'fp': 0, 'keyid': 1, 'shortid': 2, 'name': 3}[how]]
-                    if how == 'fp': a = spaced(a)[0]
-                    with self.kr.key(a) as k:
-                        o = k
+                    a = aliases_of(o)[{'fp': 0, 'keyid': 1, 'shortid': 2, 'name': 3, 'keyidsp': 1, 'shortidsp': 2}[how]]
+                    if how in ('fp', 'keyidsp', 'shortidsp'): a = spaced(a)[0]      # written in groups of four
+                    res = outcome(self.getk, a)
+                    if res[0] == 'raise':
+                        self.ctx.fail('history', 'key(%s of a loaded key) raised %s' % (how, res[1]), dict(case, alias=a))
+                        return False
+                    o = res[1]
             else:
                 o = self.U[lb]          # unloading something that is not loaded: a no-op
-            self.kr.unload(o)
+            if not self.do_unload(o, case):
+                return False
             for v in self.live.values():
                 if any(x is o for x in v): v[:] = [x for x in v if x is not o]
             self.note_unload(o)
@@ -258,7 +309,10 @@ class Sim:
             _, lb, j = op
             subs = list(self.U[lb].subkeys.values())
             o = subs[j % len(subs)]
-            self.kr.load(o)
+            res = outcome(self.kr.load, o)
+            if res[0] == 'raise':
+                self.ctx.fail('history', 'load() of a subkey object raised %s' % res[1], case)
+                return False
             self.note_load(o)
             self.last_model = self.d.call('L', self.keyspec(o), r)
         elif kind == 'US':
@@ -266,11 +320,24 @@ class Sim:
             lst = self.live[lb] or [self.U[lb]]
             subs = list(lst[n % len(lst)].subkeys.values())
             o = subs[j % len(subs)]
-            self.kr.unload(o)
+            if not self.do_unload(o, case):
+                return False
             self.note_unload(o)
             self.last_model = self.d.call('U', self.keyspec(o), r)
         else:
             raise ValueError(op)
+        return True
+
+    def getk(self, a):
+        """with keyring.key(a): the key object it yields (raises what the implementation raises)"""
+        with self.kr.key(a) as k:
+            return k
+
+    def do_unload(self, o, case):
+        res = outcome(self.kr.unload, o)
+        if res[0] == 'raise':
+            self.ctx.fail('history', 'unload() raised %s' % res[1], case)
+            return False
         return True
 
     # -- observation of the implementation in the driver's format
@@ -282,20 +349,21 @@ class Sim:
         lay = '/'.join((','.join('%s=%d' % (hexs(a), mid[p]) for a, p in m.items()) or '.') for m in kr._aliases) or 'EMPTY'
         pr = []
         for a in self.sel:
-            c = a in kr
-            try:
-                with kr.key(a) as k:
-                    g = str(mid[id(k)])
-            except KeyError:
-                g = '-'
-            pr.append('%d:%s' % (c, g))
+            c = outcome(kr.__contains__, a)
+            c = '%d' % c[1] if c[0] == 'ok' else '!' + c[1]                 # any exception shows up as a disagreement
+            g = outcome(self.getk, a)
+            g = str(mid.get(id(g[1]), '?')) if g[0] == 'ok' else ('-' if g[1] == 'KeyError' else '!' + g[1])
+            pr.append('%s:%s' % (c, g))
         fps = []
         for half in ('any', 'public', 'private'):
             for typ in ('any', 'primary', 'sub'):
                 if full:
-                    fps.append(','.join(sorted({hexs(f) for f in kr.fingerprints(keyhalf=half, keytype=typ)})) or '.')
+                    f = outcome(kr.fingerprints, keyhalf=half, keytype=typ)
+                    fps.append((','.join(sorted({hexs(x) for x in f[1]})) or '.') if f[0] == 'ok' else '!' + f[1])
         self.pr_cache = pr
-        return ' '.join([lay, ids(kr._keys), ids(kr._pubkeys), ids(kr._privkeys), ','.join(pr) or '.', ';'.join(fps), str(len(kr))])
+        n = outcome(len, kr)
+        return ' '.join([lay, ids(kr._keys), ids(kr._pubkeys), ids(kr._privkeys), ','.join(pr) or '.', ';'.join(fps),
+                         str(n[1]) if n[0] == 'ok' else '!' + n[1]])
 
     def oracle(self, case):
         """the property text, on the implementation alone"""
@@ -303,17 +371,20 @@ class Sim:
         comps = list(self.loaded.values())
         ok = True
         want_fp = {aliases_of(c)[0] for c in comps}
-        if self.r < 0 and {str(f) for f in kr.fingerprints()} != want_fp:
+        if self.r < 0 and outcome(lambda: {str(f) for f in kr.fingerprints()}) != ('ok', want_fp):
             ctx.fail('oracle', 'fingerprints() is not exactly the loaded keys and subkeys', case); ok = False
-        if len(kr) != len(comps) or set(kr._keys) != set(self.loaded):
+        if outcome(len, kr) != ('ok', len(comps)) or set(kr._keys) != set(self.loaded):
             ctx.fail('oracle', 'len(keyring) is not the number of loaded key objects', case); ok = False
         carried = {}
         for c in comps:
             for a in aliases_of(c):
                 carried.setdefault(a, set()).add(id(c))
         for a, res in zip(self.sel, self.pr_cache):      # the answers observe() just collected from the implementation
-            hits = carried.get(a, set()) | carried.get(a.replace(' ', ''), set())
+            hits = carried.get(a, set()) | carried.get(self.unsp[a], set())
             isin, g = res.split(':')
+            if not (g == '-' or g.isdigit()) or isin not in ('0', '1'):
+                ctx.fail('oracle', '`in` / key() raised something else than KeyError', dict(case, alias=a, answer=res)); ok = False
+                continue
             isin, got = isin == '1', (None if g == '-' else id(self.obj[int(g)]))
             if hits:
                 if not isin or got not in hits:
@@ -324,6 +395,15 @@ class Sim:
         return ok
 
     def check(self, suite, case):
+        try:
+            return self._check(suite, case)
+        except DriverError:
+            raise
+        except Exception as ex:
+            self.ctx.fail(suite, 'the keyring could not be observed: %s' % type(ex).__name__, case)
+            return False
+
+    def _check(self, suite, case):
         impl = self.observe(self.r)
         model = self.last_model
         ok = self.ctx.expect_eq(suite, 'keyring state / observations differ from the model', case, impl, model)
@@ -358,7 +438,7 @@ def exhaustive(ctx, sim, labels, depth, suite):
         snap = sim.snapshot(d)
         for lb in labels:
             if sim.live[lb]:
-                op = ['U', lb, 0, rng.choice(('obj', 'obj', 'fp', 'keyid'))]
+                op = ['U', lb, 0, rng.choice(('obj', 'obj', 'fp', 'keyid', 'keyidsp'))]
             else:
                 op = ['L', [[lb, rng.choice(FORMS)]], rng.choice(MODES)]
             h2 = hist + [op]
@@ -389,7 +469,7 @@ def random_walk(ctx, sim, steps, suite, components_too):
             op = ['L', [[lb, rng.choice(FORMS)] for lb in lbs], mode]
         elif r < 0.85:
             lb = rng.choice(loaded_labels)
-            op = ['U', lb, rng.randrange(4), rng.choice(('obj', 'obj', 'fp', 'keyid', 'shortid', 'name'))]
+            op = ['U', lb, rng.randrange(4), rng.choice(('obj', 'obj', 'fp', 'keyid', 'shortid', 'name', 'keyidsp', 'shortidsp'))]
         elif r < 0.9:
             op = ['U', rng.choice(labels), 0, 'obj']
             if sim.live[op[1]]: op[3] = 'obj'
@@ -434,51 +514,130 @@ def make_objects(pgpy, U):
         m2 |= U['A'].sign(m2, created=datetime(2021, 3, 1, tzinfo=timezone.utc))
         m2 |= U['B'].sign(m2, created=datetime(2021, 3, 2, tzinfo=timezone.utc))
         out.append(('msg2', 'A+B', m2))
+        out.append(('msg0', '-', PGPMessage.new('nobody signed this')))     # no issuer at all: KeyError whatever is loaded
     return out
 
 
-def select_by_object(ctx, sim, case):
+def select_by_object(ctx, sim, case, suite='select-by-object'):
     kr = sim.kr
     for kind, lb, o in sim.selectors:
         issuers = [o.signer] if kind == 'sig' else list(o.issuers)
         want = sim.d.call('msg', *[hexs(i) for i in issuers])
-        try:
+        c = dict(case, selector=[kind, lb])
+
+        def quiet(fn, *a):
             with warnings.catch_warnings():
                 warnings.simplefilter('ignore')
-                with kr.key(o) as k:
-                    got = str(sim.mid[id(k)])
-                    good = str(k.fingerprint)[-16:] in issuers and id(k) in sim.loaded
-                    if good and kind == 'sig':
-                        good = bool(k.verify('selected text', o))
-                    elif good and kind == 'msg':
-                        good = bool(k.verify(o))
-                    elif good and kind == 'enc' and not k.is_public:
-                        good = k.decrypt(o).message == 'secret of ' + lb
-                    elif good and kind == 'enc2' and not k.is_public:
-                        good = k.decrypt(o).message == 'secret of two'
-        except (KeyError, AttributeError):
+                return fn(*a)
+        res = outcome(quiet, sim.getk, o)
+        if res[0] == 'raise':
             got, good = '-', True
-        c = dict(case, selector=[kind, lb])
-        ctx.case('select-by-object', (kind, lb, got != '-', len(case['ops'])))
-        if kind in ('enc2', 'msg2'):
+            if res[1] != 'KeyError':        # the documented answer when no loaded key satisfies the identifier
+                ctx.fail(suite, 'selection by message / signature raised %s instead of KeyError' % res[1], c)
+        else:
+            k = res[1]
+            got = str(sim.mid.get(id(k), '?'))
+            good = str(k.fingerprint)[-16:] in issuers and id(k) in sim.loaded
+            if good and kind == 'sig':
+                good = outcome(quiet, lambda: bool(k.verify('selected text', o))) == ('ok', True)
+            elif good and kind == 'msg':
+                good = outcome(quiet, lambda: bool(k.verify(o))) == ('ok', True)
+            elif good and kind == 'enc' and not k.is_public:
+                good = outcome(quiet, lambda: k.decrypt(o).message) == ('ok', 'secret of ' + lb)
+            elif good and kind == 'enc2' and not k.is_public:
+                good = outcome(quiet, lambda: k.decrypt(o).message) == ('ok', 'secret of two')
+        ctx.case(suite, (kind, lb, got != '-', len(case['ops']), str(case['ops'][-1:])))
+        if kind in ('enc2', 'msg2') and got != '-':
             pass   # which of several loaded issuers is taken depends on set iteration order: only the property oracle applies
         else:
-            ctx.expect_eq('select-by-object', 'key selected by message / signature differs from the model', c, got, want)
+            ctx.expect_eq(suite, 'key selected by message / signature differs from the model', c, got, want)
         if not good:
-            ctx.fail('select-by-object', 'key selected by message / signature did not issue / cannot decrypt it', c)
+            ctx.fail(suite, 'key selected by message / signature did not issue / cannot decrypt it', c)
         # the issuer is known to the keyring  <=>  something is selected
-        known = any(i in kr for i in issuers)
+        known = any(outcome(kr.__contains__, i) == ('ok', True) for i in issuers)
         if known != (got != '-'):
-            ctx.fail('select-by-object', 'selection by object disagrees with membership of its issuers', c)
+            ctx.fail(suite, 'selection by object disagrees with membership of its issuers', c)
 
 
+def select_none(ctx, sim):
+    """with keyring.key(message / signature) when none of the issuers is loaded: the empty keyring, and keyrings that hold
+    only keys that issued / receive nothing of the selectors (F, G, H) -- KeyError and nothing else, like the model's None"""
+    issuing = {'A', 'B', 'C', 'D', 'E', 'Ap', 'Bp'}
+    others = [lb for lb in sim.U if lb not in issuing]
+    hists = [[]] + [[['L', [[lb, 'object']], 'single']] for lb in others] + [[['L', [[lb, 'object'] for lb in others], 'list']]]
+    for ops in hists:
+        if not run_history(sim, 'select-none', ops):
+            return
+        select_by_object(ctx, sim, {'ops': ops}, suite='select-none')
+    for kind, lb, o in sim.selectors:
+        if kind != 'msg0':
+            continue
+        # a message nobody signed selects nothing even when every key is loaded
+        ops = [['L', [[l, 'object'] for l in sim.U], 'list']]
+        if run_history(sim, 'select-none', ops):
+            select_by_object(ctx, sim, {'ops': ops}, suite='select-none')
+
+
+# ------------------------------------------------------------------------------------------------ _unspaced
+def unspaced_inputs(ctx, sim):
+    rng = ctx.rng
+    out = list(sim.probes)
+    odd = ['g', 'G', '/', ':', '@', '`', 'x', '\u00e9', '\u0663', '\uff21', '\n', '\t', '\u00a0', '\u2003', '-', '_']
+    for n in range(ctx.n(1500, 20000)):
+        L = rng.choice((7, 8, 9, 15, 16, 17, 39, 40, 41, 12, 24, 32, rng.randrange(0, 46)))
+        alpha = rng.choice(('0123456789ABCDEF', '0123456789abcdef', HEXDIGITS, '0123456789'))
+        body = [rng.choice(alpha) for _ in range(L)]
+        if body and rng.random() < 0.35:
+            for _ in range(rng.choice((1, 1, 2))):
+                body[rng.randrange(len(body))] = rng.choice(odd)
+        for _ in range(rng.choice((0, 1, 1, 2, 4, 9))):
+            body.insert(rng.randrange(len(body) + 1), rng.choice((' ', ' ', '  ')))
+        if rng.random() < 0.1:                # `$` would accept a final newline, fullmatch does not
+            body.append(rng.choice(('\n', ' \n', '\r\n', ' ')))
+        out.append(''.join(body))
+    return list(collections.OrderedDict.fromkeys(out))
+
+
+def unspaced_outcome(pgpy, a):
+    r = outcome(lambda: pgpy.PGPKeyring._unspaced(a))
+    return hexs(r[1]) if r[0] == 'ok' and isinstance(r[1], str) else '!' + repr(r[1])[:40]
+
+
+def check_unspaced(ctx, pgpy, sim):
+    b = Batch(ctx, sim.d, 'unspaced', 'PGPKeyring._unspaced differs from the model')
+    for a in unspaced_inputs(ctx, sim):
+        impl = unspaced_outcome(pgpy, a)
+        case = {'ops': [], 'unspaced': a}
+        ctx.case('unspaced', a, nontrivial=True, sample=case if ' ' in a else None)
+        b.add('unspaced ' + hexs(a), impl, case)
+        if impl != hexs(unspaced_ref(a)):
+            ctx.fail('unspaced', 'PGPKeyring._unspaced drops blanks from something that is not a fingerprint / key id, or keeps them in one', case)
+    b.flush()
+
+
+# commit 48f9d25: "John Smith" (G) and "JohnSmith" (H) -- with blanks ignored in every identifier each name selected the other's key
+REGRESS_NAMES = [['L', [['H', 'object']], 'single'], ['L', [['G', 'object']], 'single'], ['U', 'G', 0, 'obj'], ['U', 'H', 0, 'obj']]
 REGRESS_F5 = [['L', [['A', 'object']], 'single'], ['L', [['B', 'object']], 'single'], ['U', 'A', 0, 'obj'], ['L', [['A', 'object']], 'single']]
 
 
+def setup(ctx, pgpy, d, tmp):
+    """universe, simulation, selector objects; an implementation that cannot even build them is a recorded failure, not a crash"""
+    try:
+        U = build_universe(pgpy)
+        sim = Sim(ctx, pgpy, d, U, tmp)
+        sim.selectors = make_objects(pgpy, U)
+        return U, sim
+    except DriverError:
+        raise
+    except Exception as ex:
+        ctx.fail('setup', 'building the key universe / selector messages raised %s' % type(ex).__name__, {'ops': []})
+        return None, None
+
+
 def _run(ctx, pgpy, d, tmp):
-    U = build_universe(pgpy)
-    sim = Sim(ctx, pgpy, d, U, tmp)
-    sim.selectors = make_objects(pgpy, U)
+    U, sim = setup(ctx, pgpy, d, tmp)
+    if sim is None:
+        return
     # aliases_of of the model = the identifiers listed in the property text, for every universe key
     for k in U.values():
         for c in components(k):
@@ -489,8 +648,8 @@ def _run(ctx, pgpy, d, tmp):
     ok = run_history(sim, 'regress-F5', REGRESS_F5)
     ctx.case('regress-F5', 'LA LB UA LA')
     if ok:
-        with sim.kr.key('x') as k:
-            pass
+        if outcome(sim.getk, 'x')[0] != 'ok':
+            ctx.fail('regress-F5', 'the shared name selects nothing after L A, L B, U A, L A', {'ops': REGRESS_F5})
         sim.d.call('reset')
         old = None
         for op in REGRESS_F5:
@@ -499,6 +658,27 @@ def _run(ctx, pgpy, d, tmp):
         ctx.notes.append('model of the pre-1574c30 _add_alias on L A, L B, U A, L A differs from the implementation: %s' % (old != sim.observe()))
         if old == sim.observe():
             ctx.fail('regress-F5', 'implementation behaves like the pre-repair model on the F5 witness', {'ops': REGRESS_F5})
+    # regression: names differing by blanks only, on the implementation, on the model, and on the model of the old rule
+    ok = run_history(sim, 'regress-names', REGRESS_NAMES + [['L', [['G', 'bytearray'], ['H', 'armorbytearray']], 'list']])
+    ctx.case('regress-names', 'LH LG UG UH L[G(bytearray) H(armored bytearray)]')
+    if ok:
+        sim.reset()
+        seen = []
+        for n, op in enumerate(REGRESS_NAMES):
+            if not sim.apply(op, {'ops': REGRESS_NAMES[:n + 1]}):
+                break
+            seen.append(sim.observe())
+        sim.d.call('reset')
+        differs = 0
+        for op, impl in zip(REGRESS_NAMES, seen):
+            o = U[op[1][0][0]] if op[0] == 'L' else U[op[1]]
+            differs += sim.d.call('Lold' if op[0] == 'L' else 'Uold', sim.keyspec(o)) != impl
+        ctx.notes.append('model of the pre-48f9d25 membership / lookup (blanks ignored in every identifier) differs from the '
+                         'implementation after %d of the %d steps of L H, L G, U G, U H' % (differs, len(REGRESS_NAMES)))
+        if not differs:
+            ctx.fail('regress-names', 'implementation behaves like the pre-repair model (blanks ignored in names)', {'ops': REGRESS_NAMES})
+    select_none(ctx, sim)
+    check_unspaced(ctx, pgpy, sim)
     # exhaustive toggling histories
     labels = list(U)
     if ctx.quick:
@@ -538,10 +718,14 @@ def replay(ctx, case):
     d = Driver('c19')
     tmp = tempfile.mkdtemp(prefix='c19-')
     try:
-        U = build_universe(pgpy)
-        sim = Sim(ctx, pgpy, d, U, tmp)
-        sim.selectors = make_objects(pgpy, U)
         before = len(ctx.violations)
+        U, sim = setup(ctx, pgpy, d, tmp)
+        if sim is None:
+            return True
+        if 'unspaced' in case:
+            a = case['unspaced']
+            impl = unspaced_outcome(pgpy, a)
+            return impl != sim.d.call('unspaced', hexs(a)) or impl != hexs(unspaced_ref(a))
         try:
             run_history(sim, 'replay', [list(o) for o in case['ops']])
             if 'selector' in case:
